@@ -15,13 +15,16 @@ import (
 func init() { subcmds["c11-chan"] = c11Chan }
 
 var c11Scripts = map[string]string{
-	"receive":       `local ch = channel.make() emit("before") local ok, v = ch:receive() emit("after", ok, v) while true do end`,
-	"receive_pcall": `local ch = channel.make() emit("before") while true do pcall(function() ch:receive() end) end`,
-	"select_recv":   `local ch = channel.make() emit("before") local i, v, ok = channel.select({"|<-", ch}) emit("after", i) while true do end`,
-	"send":          `local ch = channel.make() emit("before") ch:send(1) emit("after") while true do end`,
-	"select_send":   `local ch = channel.make() emit("before") channel.select({"<-|", ch, 1}) emit("after") while true do end`,
-	"in_coroutine":  `local ch = channel.make() emit("before") local co = coroutine.wrap(function() ch:receive() while true do end end) co() emit("after")`,
-	"busy_loop":     `emit("before") while true do end`,
+	"receive":                   `local ch = channel.make() emit("before") local ok, v = ch:receive() emit("after", ok, v) while true do end`,
+	"receive_pcall":             `local ch = channel.make() emit("before") while true do pcall(function() ch:receive() end) end`,
+	"select_recv":               `local ch = channel.make() emit("before") local i, v, ok = channel.select({"|<-", ch}) emit("after", i) while true do end`,
+	"send":                      `local ch = channel.make() emit("before") ch:send(1) emit("after") while true do end`,
+	"select_send":               `local ch = channel.make() emit("before") channel.select({"<-|", ch, 1}) emit("after") while true do end`,
+	"in_coroutine":              `local ch = channel.make() emit("before") local co = coroutine.wrap(function() ch:receive() while true do end end) co() emit("after")`,
+	"busy_loop":                 `emit("before") while true do end`,
+	"send_buffered_full":        `local ch = channel.make(2) ch:send(1) ch:send(2) emit("before") ch:send(3) emit("after") while true do end`,
+	"select_send_buffered_full": `local ch = channel.make(1) ch:send(1) emit("before") channel.select({"<-|", ch, 2}) emit("after") while true do end`,
+	"receive_buffered_empty":    `local ch = channel.make(3) emit("before") ch:receive() emit("after") while true do end`,
 }
 
 func c11Chan(args []string) int {
